@@ -693,7 +693,7 @@ fn cmd_check(prop_s: &str, tier: &str) -> i32 {
             "oracle clauses: add_file result vs. what the disk delivered; key set and id tags; equality with a fresh parser (4 fresh parsers must be unanimous); attribution by serial; idempotence; no panic that a fresh parser does not share",
         ),
         Prop::C13 => (
-            "A case is one simulated run: a perturbation-heavy history on a project whose files import one another; at every observed state each file's facts (own text; per import: multiset of kinds registered by live files, from isolated single-file parses) are computed. Distinct = distinct scenario digest. Non-trivial = at least one pair of observed states in which some file kept text and facts while another file changed, in a project where some live file has an import registered by another file.",
+            "A case is one simulated run: a perturbation-heavy history on a project whose files import one another; at every observed state each file's facts (own text; per import: set of kinds registered by live files, from isolated single-file parses) are computed. Distinct = distinct scenario digest. Non-trivial = at least one pair of observed states in which some file kept text and facts while another file changed, in a project where some live file has an import registered by another file.",
             "oracle clauses: equal (text, facts) across observed states => equal result; result in the project == result with all other files replaced by empty stub items of the registered keys and kinds",
         ),
     };
